@@ -386,6 +386,16 @@ class ProvRecord(object):
             if value is not None:
                 return value
 
+        if isinstance(literal, Literal) and isinstance(
+            literal.datatype, QualifiedName
+        ):
+            # make sure the namespace of the datatype is registered (as for
+            # any other qualified name), otherwise the datatype cannot be
+            # resolved again when a serialization is read back
+            datatype = self._bundle.valid_qualified_name(literal.datatype)
+            if datatype is not literal.datatype:
+                literal = Literal(literal.value, datatype, literal.langtag)
+
         # No conversion possible, return the original value
         return literal
 
